@@ -8,7 +8,7 @@ for d in sorted(glob.glob('/verif/seeded/*/meta.json')):
     s = (m.get('summary') or '').strip()
     s = s.replace('|', '/').replace('\n', ' ')
     if len(s) > 230: s = s[:227] + '...'
-    hist = 'yes' if m.get('history') else ''
+    hist = 'yes' if 'first missed' in (m.get('history') or '') else ''
     rows.append((m['id'], files, s, ", ".join(m.get('caught_by', [])), ", ".join(m.get('missed_by', [])), hist))
 print("| id | files | change (author's words, shortened) | caught by (quick tier) | not reported by | missed at first |")
 print("|----|-------|------------------------------------|------------------------|-----------------|-----------------|")
